@@ -62,12 +62,17 @@ type Stats struct {
 	FlatTwinCommits       int64
 	Reopens               int64
 	VersionedCompared     int64
+	VersionedLatest       int64
+	VersionedRecent       int64
+	VersionedEpoch        int64
+	VersionedNonexistent  int64
 	VersionedDeletable    int64 // reads of versions the policy may delete: nothing asserted
 	DeletableStillPresent int64
 	DeletableStillCorrect int64
 	DeletedVersionsSeen   int64 // ... of which the store answered absent
 	SetFailedGas          int64
 	DelFailedGas          int64
+	GetRefusedGas         int64
 	GasExhaustedOps       int64
 	Inapplicable          int64
 	CommitContentChecks   int64
@@ -86,12 +91,17 @@ func (s *Stats) Merge(o *Stats) {
 	s.FlatTwinCommits += o.FlatTwinCommits
 	s.Reopens += o.Reopens
 	s.VersionedCompared += o.VersionedCompared
+	s.VersionedLatest += o.VersionedLatest
+	s.VersionedRecent += o.VersionedRecent
+	s.VersionedEpoch += o.VersionedEpoch
+	s.VersionedNonexistent += o.VersionedNonexistent
 	s.VersionedDeletable += o.VersionedDeletable
 	s.DeletableStillPresent += o.DeletableStillPresent
 	s.DeletableStillCorrect += o.DeletableStillCorrect
 	s.DeletedVersionsSeen += o.DeletedVersionsSeen
 	s.SetFailedGas += o.SetFailedGas
 	s.DelFailedGas += o.DelFailedGas
+	s.GetRefusedGas += o.GetRefusedGas
 	s.GasExhaustedOps += o.GasExhaustedOps
 	s.Inapplicable += o.Inapplicable
 	s.CommitContentChecks += o.CommitContentChecks
@@ -446,6 +456,14 @@ func (r *runner) step(i int, op Op) *Viol {
 		exp, layer := m.Lookup(k)
 		got, err := r.st.Get(r.keys[k])
 		r.stats.Comparisons++
+		if err == storage.ErrExceedGasLimit && hit {
+			// the read was refused, loudly: no value was returned, so no
+			// wrong value was returned (the unchanged tree never does this)
+			r.stats.Comparisons--
+			r.stats.GetRefusedGas++
+			r.tr("#%d %-14s -> error %v (gas limit reached): read refused, nothing to compare", i, op.String(), err)
+			return nil
+		}
 		if err != nil {
 			return r.viol("get", r.provenance(k, exp, layer), "error-returned", r.showCell(exp), "error "+err.Error(), "Get returned an error")
 		}
@@ -528,15 +546,19 @@ func (r *runner) getVersioned(i int, op Op, v int64, k int) *Viol {
 	switch {
 	case v < 1 || v > cur:
 		exp, ctx = cNone, "nonexistent-version"
+		r.stats.VersionedNonexistent++
 	case Kept(r.cfg.Rot, cur, v):
 		exp = m.At(v, k)
 		switch {
 		case v == cur:
 			ctx = "latest-version"
+			r.stats.VersionedLatest++
 		case v >= cur-r.cfg.Rot[0]:
 			ctx = "recent-window"
+			r.stats.VersionedRecent++
 		default:
 			ctx = "epoch-version"
+			r.stats.VersionedEpoch++
 		}
 	default:
 		// the policy may have deleted this version: nothing is asserted
